@@ -9,6 +9,7 @@ import (
 	"reflect"
 	"strconv"
 	"strings"
+	"syscall"
 	"testing"
 
 	"github.com/benhoyt/goawk/interp"
@@ -586,7 +587,28 @@ var badShapes = map[string]any{
 	"not-a-func-strc": struct{ A int }{1},
 	"nil-value":       nil,
 	"error-only":      func() error { return nil },
+	// a second result must be exactly the type error: concrete types that implement it are not the documented shape
+	"second-errptr":    func() (int, *myErr) { return 0, nil },
+	"second-errstruct": func() (int, myErrVal) { return 0, myErrVal{} },
+	"second-errno":     func() (int, syscall.Errno) { return 0, 0 },
+	"second-bigiface": func() (int, interface {
+		error
+		Extra()
+	}) {
+		return 0, nil
+	},
+	"second-any":     func() (int, any) { return 0, nil },
+	"first-err-pair": func() (error, int) { return nil, 0 },
+	"second-string":  func() (int, string) { return 0, "" },
 }
+
+type myErr struct{}
+
+func (*myErr) Error() string { return "myErr" }
+
+type myErrVal struct{}
+
+func (myErrVal) Error() string { return "myErrVal" }
 
 var badNames = []string{"print", "if", "length", "BEGIN", "function", "getline", "in", "substr"}
 
